@@ -21,9 +21,11 @@
 (*      key; the instance picked is not a positive-weight member of what the balancer holds; Rebalance differs  *)
 (*      from the successful Resolve just made by the same process or uses a key other than <resolver>:<CacheKey>*)
 (*  (2) a caller starts Resolve while another caller's Resolve of the key is in flight, or although the entry   *)
-(*      was present during its whole call; refresh resolves a key that had no entry since its last visit        *)
+(*      was present during its whole call (unless the watcher's Delete line follows: pend); refresh resolves a  *)
+(*      key that had no entry since its last visit, or visits one key three times without visiting another key  *)
+(*      that had an entry all the while (a Range skipped it)                                                    *)
 (*  (3) Delete for a key without entry (twice / never created) or under a key the balancer does not know the    *)
-(*      entry by; Delete sooner than ExpireInterval/5 after a call that used the entry began (only judged when  *)
+(*      entry by; Delete sooner than ExpireInterval/2 after a call that used the entry began (only judged when  *)
 (*      the driver measured no scheduling stall > 10 ms around it); Quiesce (the driver waited >= 15 expire     *)
 (*      intervals after the last call) with an entry left                                                      *)
 (*  (4) anything but "nothing" after a failed Resolve (a Rebalance, a later miss without Delete, ...)           *)
@@ -39,15 +41,23 @@ ORange(s) == {s[i] : i \in DOMAIN s}
 OMax(a, b) == IF a > b THEN a ELSE b
 ONoCs == [at |-> "idle", k |-> "-", miss |-> FALSE, cand |-> {}, errok |-> FALSE, x |-> 0, t0 |-> 0, v |-> 0]
 ONoRf == [at |-> "idle", k |-> "-", v |-> 0, orph |-> FALSE]
+OZero == [a \in OKeys |-> 0]
 
 OInit(rname, expireMs) ==
     [ok |-> TRUE, rname |-> rname, exp |-> expireMs, nv |-> 0, vers |-> << >>,
      cst |-> [k \in OKeys |-> "no"], stored |-> [k \in OKeys |-> {}], bk |-> [k \in OKeys |-> ""],
      tkey |-> [k \in OKeys |-> ""], bal |-> [k \in OKeys |-> [has |-> FALSE, pos |-> << >>]],
      since |-> [k \in OKeys |-> FALSE], lastUse |-> [k \in OKeys |-> -1000000],
-     lead |-> [k \in OKeys |-> 0], cs |-> [p \in OCallers |-> ONoCs], rf |-> ONoRf]
+     lead |-> [k \in OKeys |-> 0], pend |-> [k \in OKeys |-> FALSE],
+     rcnt |-> [b \in OKeys |-> OZero], cs |-> [p \in OCallers |-> ONoCs], rf |-> ONoRf]
 
 OReject(o) == [o EXCEPT !.ok = FALSE]
+\* rcnt[b][a]: refresh visits of key a since b was last visited, while b certainly had an entry all the time.
+\* Three visits of a enclose one complete Range (ticks are sequential, Range visits every key that is present
+\* throughout): a third one without a visit of b means refresh skipped b  ("refreshes every RefreshInterval").
+ORefreshVisit(o, a) ==
+    [b \in OKeys |-> IF b = a THEN OZero
+                     ELSE [o.rcnt[b] EXCEPT ![a] = IF o.cst[b] = "yes" THEN @ + 1 ELSE @]]
 \* callers whose call on k is in progress and has not picked yet
 OOn(o, k) == {p \in OCallers : o.cs[p].k = k /\ o.cs[p].at \in {"target", "resolve", "resolved", "picking"}}
 OAddCand(o, k, v) == [p \in OCallers |-> IF p \in OOn(o, k) THEN [o.cs[p] EXCEPT !.cand = @ \cup {v}] ELSE o.cs[p]]
@@ -67,6 +77,8 @@ OTarget(o, e) ==
        /\ (o.cs[e.p].at = "idle" \/ (o.cs[e.p].at = "called" /\ o.cs[e.p].k = e.key))
     THEN [o EXCEPT !.cs[e.p] = [ONoCs EXCEPT !.at = "target", !.k = e.key, !.t0 = e.t,
                                               !.miss = (o.cst[e.key] # "yes"),
+                                              \* a failed first resolution whose flight may still be joined
+                                              !.errok = (\E q \in OCallers : o.cs[q].at = "failed" /\ o.cs[q].k = e.key),
                                               !.cand = IF o.cst[e.key] = "no" THEN {} ELSE o.stored[e.key]],
                     !.tkey[e.key] = e.tk]
     ELSE OReject(o)
@@ -74,12 +86,28 @@ OTarget(o, e) ==
 OResolveBegin(o, e) ==
     IF ~OIsKey(e) THEN OReject(o)
     ELSE IF e.p = 0
-    THEN IF o.rf.at = "idle" /\ o.since[e.key]
+    THEN IF o.rf.at = "idle" /\ o.since[e.key] /\ \A b \in OKeys : ORefreshVisit(o, e.key)[b][e.key] < 3
          THEN [o EXCEPT !.rf = [at |-> "resolve", k |-> e.key, v |-> 0, orph |-> FALSE],
-                        !.since[e.key] = (o.cst[e.key] # "no")]
+                        !.since[e.key] = (o.cst[e.key] # "no"),
+                        !.rcnt = ORefreshVisit(o, e.key)]
          ELSE OReject(o)
-    ELSE IF OIsCaller(e) /\ o.cs[e.p].at = "target" /\ o.cs[e.p].k = e.key /\ o.cs[e.p].miss /\ o.lead[e.key] = 0
-         THEN [o EXCEPT !.cs[e.p].at = "resolve", !.lead[e.key] = e.p]
+    ELSE IF OIsCaller(e) /\ o.cs[e.p].at = "target" /\ o.cs[e.p].k = e.key /\ o.lead[e.key] = 0
+         THEN IF o.cs[e.p].miss
+              THEN [o EXCEPT !.cs[e.p].at = "resolve", !.lead[e.key] = e.p]
+              \* The entry was there during the whole call as far as the callbacks tell.  The only way this is a
+              \* behaviour of LBCache: the watcher has already removed the entry (b.cache.Delete) and its
+              \* balancer.Delete callback is still to come.  Taken as such, with the obligation pend[k] that the
+              \* Delete line follows (checked at the next Delete / Quiesce / End and by a second such Resolve).
+              ELSE IF o.cst[e.key] = "yes" /\ ~o.pend[e.key]
+                   THEN [o EXCEPT !.lead[e.key] = e.p, !.pend[e.key] = TRUE, !.cst[e.key] = "no",
+                                  !.rcnt[e.key] = OZero,
+                                  !.stored[e.key] = {},
+                                  !.rf.orph = IF o.rf.k = e.key THEN TRUE ELSE @,
+                                  !.cs = [p \in OCallers |->
+                                            IF p = e.p THEN [o.cs[p] EXCEPT !.at = "resolve", !.miss = TRUE]
+                                            ELSE IF o.cs[p].k = e.key /\ o.cs[p].at = "target"
+                                                 THEN [o.cs[p] EXCEPT !.miss = TRUE] ELSE o.cs[p]]]
+                   ELSE OReject(o)
          ELSE OReject(o)
 
 OResolveEnd(o, e) ==
@@ -118,8 +146,10 @@ ORebalance(o, e) ==
          THEN LET k == o.cs[e.p].k
                   v == o.cs[e.p].v
                   cs1 == OAddCand(o, k, v) IN
-              [o EXCEPT !.lead[k] = 0, !.cst[k] = "maybe", !.bk[k] = e.ck,
-                        !.bal[k] = [has |-> TRUE, pos |-> e.pos], !.stored[k] = {v}, !.since[k] = TRUE,
+              [o EXCEPT !.lead[k] = 0, !.cst[k] = "maybe", !.bk[k] = e.ck, !.rcnt[k] = OZero,
+                        !.bal[k] = [has |-> TRUE, pos |-> e.pos], !.since[k] = TRUE,
+                        \* (an entry a second leader is about to replace can still be loaded until Store)
+                        !.stored[k] = IF o.cst[k] = "no" THEN {v} ELSE @ \cup {v},
                         !.lastUse[k] = OMax(@, o.cs[e.p].t0),
                         \* a refresh in progress on k works on the entry this one replaces
                         !.rf.orph = IF o.rf.k = k THEN TRUE ELSE @,
@@ -151,17 +181,25 @@ ODelete(o, e) ==
     LET K == {k \in OKeys : e.key # "" /\ (o.tkey[k] = e.key \/ o.bk[k] = e.key)} IN
     IF Cardinality(K) # 1 THEN OReject(o)
     ELSE LET k == CHOOSE k \in K : TRUE IN
-         IF /\ o.cst[k] # "no"
+         IF /\ (o.cst[k] # "no" \/ o.pend[k])
             /\ e.key = o.bk[k]
-            /\ e.stall <= OStallOK => e.t - o.lastUse[k] >= o.exp \div 5
-         THEN [o EXCEPT !.cst[k] = "no", !.stored[k] = {}, !.bal[k] = [has |-> FALSE, pos |-> << >>],
-                        !.rf.orph = IF o.rf.k = k THEN TRUE ELSE @,
-                        !.cs = [p \in OCallers |-> IF o.cs[p].k = k /\ o.cs[p].at = "target"
-                                                   THEN [o.cs[p] EXCEPT !.miss = TRUE] ELSE o.cs[p]]]
+            /\ e.stall <= OStallOK => e.t - o.lastUse[k] >= o.exp \div 2
+         THEN IF o.pend[k]    \* the announced Delete of an entry already accounted for as gone
+              THEN [o EXCEPT !.pend[k] = FALSE, !.bal[k] = [has |-> FALSE, pos |-> << >>]]
+              ELSE [o EXCEPT !.cst[k] = "no", !.stored[k] = {}, !.bal[k] = [has |-> FALSE, pos |-> << >>],
+                             !.rcnt[k] = OZero,
+                             !.rf.orph = IF o.rf.k = k THEN TRUE ELSE @,
+                             !.cs = [p \in OCallers |-> IF o.cs[p].k = k /\ o.cs[p].at = "target"
+                                                        THEN [o.cs[p] EXCEPT !.miss = TRUE] ELSE o.cs[p]]]
          ELSE OReject(o)
 
 OQuiesce(o, e) ==
-    IF (\A p \in OCallers : o.cs[p].at = "idle") /\ (\A k \in OKeys : o.cst[k] = "no") THEN o ELSE OReject(o)
+    IF /\ \A p \in OCallers : o.cs[p].at = "idle"
+       /\ \A k \in OKeys : o.cst[k] = "no" /\ ~o.pend[k]
+    THEN o ELSE OReject(o)
+
+\* end of a history: every call has returned and no Delete is owed
+OEnd(o) == (\A p \in OCallers : o.cs[p].at = "idle") /\ (\A k \in OKeys : ~o.pend[k])
 
 OStep(o, e) ==
     CASE e.ev = "Call" -> OCall(o, e)
